@@ -234,6 +234,61 @@ class Check:
                         pass
         return rc, out, recs
 
+    def repo_state_key(self, extra=""):
+        """Hash of everything a harness run depends on: the repository's HEAD, its tracked and
+        untracked modifications, the harness sources, seed and tier."""
+        h = hashlib.sha1()
+        for cmd in (["git", "-C", REPO, "rev-parse", "HEAD"], ["git", "-C", REPO, "diff", "HEAD"],
+                    ["git", "-C", REPO, "status", "--porcelain"]):
+            rc, out, _ = sh(cmd, timeout=120)
+            h.update(out.encode())
+        rc, out, _ = sh(["git", "-C", REPO, "ls-files", "--others", "--exclude-standard"], timeout=120)
+        for f in out.split():
+            try:
+                h.update(open(os.path.join(REPO, f), "rb").read())
+            except Exception:
+                pass
+        for root, _, files in sorted(os.walk(os.path.join(HARNESS, "src"))):
+            for f in sorted(files):
+                h.update(open(os.path.join(root, f), "rb").read())
+        h.update(("%s|%s|%s" % (self.seed, self.tier, extra)).encode())
+        return h.hexdigest()[:16]
+
+    def run_harness_cached(self, args, name, bin, timeout=1800):
+        """Several properties share one harness run (same binary, same inputs): the case file is
+        kept under work/cache keyed by repo_state_key, so a change to the repository or the
+        harness always triggers a fresh run."""
+        key = self.repo_state_key(bin + " ".join(args))
+        cdir = os.path.join(WORK, "cache")
+        os.makedirs(cdir, exist_ok=True)
+        cpath = os.path.join(cdir, "%s_%s.jsonl" % (name, key))
+        if not os.path.exists(cpath):
+            exe = os.path.join(BUILD, "target", "debug", bin)
+            tmp = cpath + ".tmp%d" % os.getpid()
+            rc, out, dt = sh([exe] + args + ["--out", tmp], timeout=timeout, cwd=cdir)
+            self.log("harness %s %s rc=%d (%.1fs)" % (bin, " ".join(args), rc, dt))
+            if rc != 0:
+                if os.path.exists(tmp):
+                    os.remove(tmp)
+                return rc, out, []
+            os.replace(tmp, cpath)
+            # keep the cache small
+            olds = sorted((f for f in os.listdir(cdir) if f.startswith(name + "_") and f.endswith(".jsonl")),
+                          key=lambda f: os.path.getmtime(os.path.join(cdir, f)))
+            for f in olds[:-6]:
+                os.remove(os.path.join(cdir, f))
+        else:
+            self.log("harness %s: reusing cached run %s" % (bin, os.path.basename(cpath)))
+        recs = []
+        for ln in open(cpath):
+            ln = ln.strip()
+            if ln:
+                try:
+                    recs.append(json.loads(ln))
+                except Exception:
+                    pass
+        return 0, "", recs
+
     # ---------------------------------------------------- Coq evaluation
     def coq_eval(self, header, cases, tag="cases", per_shard=None, timeout=1500, result_type="list N"):
         """cases: list of dicts with 'coq' (expression of type N).  Returns list of
